@@ -51,7 +51,7 @@ def make(rd, tier, seed, ev):
         named.append((n, t))
         expected[n] = ok
     gen = plancheck.write_problems(rd, named)
-    fgen, fexp = plancheck.feature_problems(rd, ['tp', 'inheritance', 'multisuper', 'incremental', 'cardinality', 'impossible', 'unify', 'enummember'], seed, tier)
+    fgen, fexp = plancheck.feature_problems(rd, ['tp', 'inheritance', 'multisuper', 'incremental', 'cardinality', 'impossible', 'unify', 'enummember', 'coefsign'], seed, tier)
     gen += fgen
     expected.update({k: v for k, v in fexp.items() if v})
     ev.sample({'generated_problem': gen[0][0], 'text': open(gen[0][1][0]).read(), 'has_solution': expected[gen[0][0]]})
